@@ -86,6 +86,15 @@ func c08Follow(m *specModel, batch []*genetics.Organism, opts *neat.Options, pop
 		for si := range m.ids {
 			rep := m.members[si][0]
 			d := o.Genotype.VCompatibility(rep.Genotype, opts)
+			// the distance speciation works with must be the compatibility formula's (set arithmetic
+			// on the two gene lists); a deviation puts organisms into the wrong species
+			if len(o.Genotype.Genes) > 0 && len(rep.Genotype.Genes) > 0 && genesSorted(o.Genotype) && genesSorted(rep.Genotype) {
+				e, dj, w := c07Ref(o.Genotype, rep.Genotype)
+				f := opts.ExcessCoeff*float64(e) + opts.DisjointCoeff*float64(dj) + opts.MutdiffCoeff*w
+				if diff := d - f; diff > 1e-9*(1+f) || diff < -1e-9*(1+f) || d != d {
+					return fmt.Sprintf("organism #%d of the batch is measured at distance %g from the representative of species %d; the compatibility formula gives %g (E=%d D=%d W=%g)", bi, d, m.ids[si], f, e, dj, w)
+				}
+			}
 			if d < opts.CompatThreshold {
 				if len(cands) == 0 || d < best {
 					best, cands = d, []int{si}
@@ -149,6 +158,15 @@ func c08Follow(m *specModel, batch []*genetics.Organism, opts *neat.Options, pop
 		return fmt.Sprintf("highest issued species id is recorded as %d although id %d exists", pop.LastSpecies, m.maxID)
 	}
 	return ""
+}
+
+func genesSorted(g *genetics.Genome) bool {
+	for i := 1; i < len(g.Genes); i++ {
+		if g.Genes[i-1].InnovationNum >= g.Genes[i].InnovationNum {
+			return false
+		}
+	}
+	return true
 }
 
 func modelOf(pop *genetics.Population) *specModel {
@@ -386,7 +404,7 @@ func runC08(c *Ctx) {
 	runEpochPlan(c, pl)
 	c.States = int64(len(c.distinct))
 	c.Rule = fmt.Sprintf("(a) family of %d structurally different genomes; existing populations = every way to pre-speciate an ordered choice of up to %d members (singleton and shared species), under two id layouts (contiguous; sparse with a higher high-water mark); batches = every ordered arrangement of up to %d further members (plus a repeated member); thresholds %v (and the same batch in two calls with the options' threshold changed in between); both distance methods; three coefficient rows (rotated); the real speciate is followed organism by organism by a list-of-lists reference using the library's distance (any minimiser accepted on ties), final species lists compared. (b) the same lock-step reference on the babies of every epoch of E1 multi-epoch runs (species-wise driving, all executions within max_deviations of the base policies) and on the populations built by NewPopulation / NewPopulationRandom / ReadPopulation. states = distinct existing populations + distinct run end states, transitions = organisms placed + populations produced", fam, maxEx, maxBatch, c08Thresholds)
-	c.Assume("the oracle uses the library's own distance function, so C08 is independent of C07")
+	c.Assume("placement is judged with the library's own distance value (so that ties and the threshold are compared on the very same number); that value is additionally compared with the set-arithmetic formula of C07 for every organism/representative pair")
 	c.Assume("Go toolchain, go build -overlay, the instrumenter and the accessor file are trusted")
 }
 
